@@ -115,7 +115,12 @@ namespace verif {
         ctr_t stored_state[8] = {};    // state stored by the scheduling loop after a phase (sched_after_store)
     };
     inline std::mutex g_tc_mtx;
-    inline std::vector<thread_counters*> g_tcs;
+    // intentionally never destroyed (stays reachable for LeakSanitizer, usable during static destruction)
+    inline std::vector<thread_counters*>& g_tcs_ref()
+    {
+        static auto* v = new std::vector<thread_counters*>;
+        return *v;
+    }
     inline thread_counters& tc()
     {
         thread_local thread_counters* p = nullptr;
@@ -123,7 +128,7 @@ namespace verif {
         {
             p = new thread_counters;
             std::lock_guard<std::mutex> l(g_tc_mtx);
-            g_tcs.push_back(p);
+            g_tcs_ref().push_back(p);
         }
         return *p;
     }
@@ -257,7 +262,7 @@ namespace verif {
     {
         counter_totals t;
         std::lock_guard<std::mutex> l(g_tc_mtx);
-        for (auto* p : g_tcs)
+        for (auto* p : g_tcs_ref())
         {
             for (unsigned s = 0; s < pv::site_count; ++s)
             {
